@@ -1,4 +1,5 @@
 import GarbleVerif.Model.Consts
+import GarbleVerif.Proofs.Wrap
 /-!
 # C12 — constant parameters
 
@@ -19,27 +20,6 @@ with the values written out) is compared on generated programs on every run.
 -/
 namespace GV
 namespace Src
-
-theorem wrapTo_range (k : IntTy) (n : Int) : k.lo ≤ wrapTo k n ∧ wrapTo k n ≤ k.hi := by
-  have hpos : (0 : Int) < (2 : Int) ^ k.bits := Int.pow_pos (by decide)
-  have h0 := Int.emod_nonneg n (Int.ne_of_gt hpos)
-  have h1 := Int.emod_lt_of_pos n hpos
-  have hb : 1 ≤ k.bits := by cases k <;> decide
-  have hhalf : (2 : Int) ^ k.bits = 2 * (2 : Int) ^ (k.bits - 1) := by
-    have : k.bits = (k.bits - 1) + 1 := by omega
-    rw [this, Int.pow_succ]; simp; omega
-  unfold wrapTo IntTy.lo IntTy.hi
-  generalize (2 : Int) ^ k.bits = P at *
-  generalize (2 : Int) ^ (k.bits - 1) = H at *
-  cases hs : k.signed
-  · simp only [Bool.false_and, Bool.false_eq_true, if_false]
-    omega
-  · simp only [Bool.true_and, if_true]
-    by_cases hge : n % P ≥ H
-    · simp only [hge, decide_true, if_true]
-      omega
-    · simp only [hge, decide_false, Bool.false_eq_true, if_false]
-      omega
 
 /-- all literals of the expression are values of the type -/
 def CExpr.litsIn (k : IntTy) : CExpr → Prop
@@ -75,19 +55,6 @@ theorem C12_in_range (k : IntTy) (env : CEnv)
     have hb := ihb h.2
     simp only [evalC]
     omega
-
-theorem wrapTo_emod (k : IntTy) (n : Int) : wrapTo k n % (2 : Int) ^ k.bits = n % (2 : Int) ^ k.bits := by
-  unfold wrapTo
-  simp only
-  split
-  · have : n % (2 : Int) ^ k.bits - (2 : Int) ^ k.bits = n % (2 : Int) ^ k.bits + (-1) * (2 : Int) ^ k.bits := by omega
-    rw [this, Int.add_mul_emod_self_right, Int.emod_emod_of_dvd _ (Int.dvd_refl _)]
-  · exact Int.emod_emod_of_dvd _ (Int.dvd_refl _)
-
-theorem wrapTo_eq_of_emod_eq (k : IntTy) (a b : Int) (h : a % (2 : Int) ^ k.bits = b % (2 : Int) ^ k.bits) :
-    wrapTo k a = wrapTo k b := by
-  unfold wrapTo
-  simp only [h]
 
 theorem linear_emod (k : IntTy) (env : CEnv) : ∀ e : CExpr, e.linear = true →
     evalC k env e % (2 : Int) ^ k.bits = exact env e % (2 : Int) ^ k.bits := by
